@@ -83,6 +83,8 @@ def run(ctx):
                                 {"clause": "the session proceeds only if the pool authorises the destination account, per connection", "case": d["header"],
                                  "ops": [l for l in d["lines"][:d["first"]] if l.startswith("> ")], "seed": ctx.seed, "volume": 60 if ctx.tier == "quick" else 1200, "how_to_replay": "bin/check C15 --replay <this file>"})
     ctx.coverage["handler_connections_checked"] = handler_rows
+    # contract routing starts at the contract's pool destination: what the real factory makes of a purchase held as buyer / validator
+    L.buyer_world(ctx, "C15")
     outs, nops = {}, 0
     for h, lines in cases:
         for l in lines:
@@ -100,6 +102,9 @@ def run(ctx):
 
 
 def replay(ctx, path):
+    r = L.buyer_world_replay(ctx, "C15", path)
+    if r is not None:
+        return r
     import json
     rp = json.load(open(path))
     if rp.get("signature", "").startswith("c15:account-presented"):
